@@ -61,10 +61,10 @@ def _dims_eq(env, dims, n):
     return env.and_(*[env.eq(a, b) for a, b in zip(dims, n)])
 
 
-def h_write_read(env, dtype="float64", ext=".mrc", data_type=None, transpose=True):
+def h_write_read(env, dtype="float64", ext=".mrc", data_type=None, transpose=True, base="map"):
     cm = env.module("cryomap")
     n, i, x = _array(env, dtype)
-    path = env.path("map" + ext)
+    path = env.path(base + ext)
     kw = {}
     if data_type == "single":
         kw["data_type"] = np.single
@@ -161,12 +161,16 @@ def jobs(tier, seed):
         for ext in (".mrc", ".rec", ".em"):
             j.append(("h_write_read", {"dtype": dtype, "ext": ext}))
     j += [("h_write_read", {"dtype": "float64", "ext": ".mrc", "transpose": False}), ("h_write_read", {"dtype": "int16", "ext": ".em", "transpose": False}),
+          ("h_write_read", {"dtype": "float64", "ext": ".em", "transpose": False}), ("h_write_read", {"dtype": "float64", "ext": ".rec", "transpose": False}),
+          ("h_write_read", {"dtype": "float32", "ext": ".em", "base": "ref.recentered"}), ("h_write_read", {"dtype": "int16", "ext": ".em", "base": "avg.aligned.st_2"}),
+          ("h_write_read", {"dtype": "float32", "ext": ".mrc", "base": "run1.em_converted"}),
           ("h_write_read", {"dtype": "int16", "ext": ".mrc", "data_type": "single"}), ("h_write_read", {"dtype": "float64", "ext": ".em", "data_type": "single"}),
           ("h_overwrite", {"ext": ".mrc"}), ("h_overwrite", {"ext": ".em"}),
           ("h_convert", {"direction": "em2mrc"}), ("h_convert", {"direction": "mrc2em"}),
           ("h_convert", {"direction": "em2mrc", "invert": True, "explicit_name": True}), ("h_convert", {"direction": "mrc2em", "invert": True, "dtype": "int16"}),
           ("h_convert", {"direction": "em2mrc", "base": "template"}), ("h_convert", {"direction": "em2mrc", "base": "tomogram", "invert": True}),
           ("h_convert", {"direction": "mrc2em", "base": "scheme"}), ("h_convert", {"direction": "mrc2em", "base": "map.v2.rc", "dtype": "int16"}),
+          ("h_convert", {"direction": "em2mrc", "base": "ref.recentered"}), ("h_convert", {"direction": "mrc2em", "base": "tilt.stack.mrc_converted", "invert": True}),
           ("h_convert", {"direction": "em2mrc", "overwrite_case": True}), ("h_convert", {"direction": "mrc2em", "overwrite_case": True, "explicit_name": True}),
           ("h_invert", {"dtype": "float64", "ext": ".mrc"}), ("h_invert", {"dtype": "int16", "ext": ".em"})]
     if tier == "thorough":
